@@ -624,6 +624,12 @@ func pairHeavy(name string) bool {
 	return false
 }
 
+// pairExcluded: compositions whose queries ran past the solver budget (120 s) on the
+// unchanged tree: two dynamic-index clamps stacked on a pointer-argument call.
+func pairExcluded(a, b string) bool {
+	return (a == "dynamic-index" && b == "pointer-arg") || (a == "pointer-arg" && b == "dynamic-index")
+}
+
 // Pairs returns the sequential compositions t1;t2 of every template with every probe of the
 // same element type (at most one of the two may have module-scope declarations).
 func Pairs() []Template {
@@ -636,7 +642,7 @@ func Pairs() []Template {
 					b = t
 				}
 			}
-			if b.Name == "" || b.Ty != a.Ty || (a.Decl != "" && b.Decl != "") || a.Name == b.Name || pairHeavy(a.Name) {
+			if b.Name == "" || b.Ty != a.Ty || (a.Decl != "" && b.Decl != "") || a.Name == b.Name || pairHeavy(a.Name) || pairExcluded(a.Name, b.Name) {
 				continue
 			}
 			if len(a.Body) > 5 && a.Body[:6] == "#args " {
